@@ -126,6 +126,9 @@ def _snap_def(prog: dict, s: int, owner: int, params: List[str], indent: str) ->
     kw = ", ".join("{0}={0}".format(p) for p in params)
     sig = ", ".join(params)
     owner_async = prog["fn"][owner - 1]["async"]
+    if snp.get("noargs"):
+        # a capture that takes none of the arguments of the call (it reads the world outside)
+        kw, sig = "", ""
     if snp["rv"] == "corofn":
         return ["{}async def cap_{}({}):".format(indent, s, sig),
                 "{}    return await H.cap_async({}, {}, {})".format(indent, s, owner, kw)]
